@@ -412,9 +412,29 @@ func c19NewTransport(x *X) {
 	cellName := ""
 	var leaf func(key string, scope *ast.FuncDecl, val ast.Expr)
 	var walk func(prefix string, scope *ast.FuncDecl, cl *ast.CompositeLit)
+	// `<root>.Proxy.<Field>`, also through an alias of the Proxy part: `p := &cfg.Proxy` (or `p := cfg.Proxy`,
+	// a copy made in the same straight-line function) and then `p.<Field>`
+	cfgField := func(scope *ast.FuncDecl, e ast.Expr) (*ast.Ident, string, *ast.FuncDecl, bool) {
+		if root, f, ok := c19CfgField(e); ok {
+			return root, f, scope, true
+		}
+		if sel, ok := e.(*ast.SelectorExpr); ok {
+			if _, isID := c19StripParen(sel.X).(*ast.Ident); isID {
+				inner, ifd := c19Resolve(x, "transport", scope, sel.X, 0)
+				if ps, ok := c19StripAddr(inner).(*ast.SelectorExpr); ok && ps.Sel.Name == "Proxy" {
+					if root, ok := ps.X.(*ast.Ident); ok {
+						return root, sel.Sel.Name, ifd, true
+					}
+				}
+			}
+		}
+		return nil, "", nil, false
+	}
+	consumed := map[int]bool{}
 	leaf = func(key string, scope *ast.FuncDecl, val ast.Expr) {
 		v, vfd := c19Resolve(x, "transport", scope, val, 0)
-		if root, f, ok := c19CfgField(v); ok {
+		if root, f, rfd, ok := cfgField(vfd, v); ok {
+			vfd = rfd
 			b := c19Binding(x, "transport", vfd, root)
 			if b != "packageVar" {
 				x.fail("NewTransport: %s reads %s which is %s, not the package-level configuration", key, x.src(v), b)
@@ -431,7 +451,17 @@ func c19NewTransport(x *X) {
 		if sel, ok := v.(*ast.SelectorExpr); ok {
 			inner, ifd := c19Resolve(x, "transport", vfd, sel.X, 0)
 			if dl, ok := c19StripAddr(inner).(*ast.CompositeLit); ok {
-				walk(key+"="+x.src(dl.Type)+"."+sel.Sel.Name+":", ifd, dl)
+				prefix := key + "=" + x.src(dl.Type) + "." + sel.Sel.Name + ":"
+				walk(prefix, ifd, dl)
+				// the receiver is a local of NewTransport that is filled field by field: those stores belong to it
+				if id, ok := c19StripParen(sel.X).(*ast.Ident); ok && id.Obj != nil && vfd == fd {
+					for i, st := range stores {
+						if st.obj == id.Obj {
+							consumed[i] = true
+							leaf(prefix+st.key, fd, st.val)
+						}
+					}
+				}
 				return
 			}
 		}
@@ -453,11 +483,14 @@ func c19NewTransport(x *X) {
 	}
 	walk("", rfd, lit)
 	for _, s := range stores {
-		if retObj == nil || s.obj != retObj {
-			x.fail("NewTransport: store into a field of something that is not the returned transport: .%s", s.key)
-			continue
+		if retObj != nil && s.obj == retObj {
+			leaf(s.key, fd, s.val)
 		}
-		leaf(s.key, fd, s.val)
+	}
+	for i, s := range stores {
+		if (retObj == nil || s.obj != retObj) && !consumed[i] {
+			x.fail("NewTransport: store into a field of something that is neither the returned transport nor a value it references: .%s", s.key)
+		}
 	}
 	var keys []string
 	for k := range fields {
@@ -1012,14 +1045,53 @@ func c19ErrorHandler(x *X) {
 		x.fail("ErrorHandler: unexpected signature")
 		return
 	}
-	wObj, errObj := pnames[0].Obj, pnames[2].Obj
+	wObj := pnames[0].Obj
+	errObjs := map[*ast.Object]bool{pnames[2].Obj: true}
 	isErr := func(e ast.Expr) bool {
 		id, ok := c19StripParen(e).(*ast.Ident)
-		return ok && id.Obj == errObj
+		return ok && id.Obj != nil && errObjs[id.Obj]
 	}
-	// results of `v, ok := err.(net.Error)` anywhere in the handler
-	assertVal, assertOK := map[*ast.Object]bool{}, map[*ast.Object]bool{}
+	// A classification helper: an unexported function of the package called with the error as its only argument
+	// (`statusCode := proxyErrorStatus(err)`, `w.WriteHeader(proxyErrorStatus(err))`). Its parameter is the error
+	// too, and its `return <status>` statements are rows of the table just as assignments to the status variable are.
+	classifier := func(e ast.Expr) *ast.FuncDecl {
+		c, ok := c19StripParen(e).(*ast.CallExpr)
+		if !ok || len(c.Args) != 1 || !isErr(c.Args[0]) {
+			return nil
+		}
+		id, ok := c.Fun.(*ast.Ident)
+		if !ok || ast.IsExported(id.Name) {
+			return nil
+		}
+		callee := x.anyFuncDecl("proxy", id.Name)
+		if callee == nil || callee.Recv != nil || callee.Body == nil || callee.Type.Params == nil {
+			return nil
+		}
+		var ps []*ast.Ident
+		for _, f := range callee.Type.Params.List {
+			ps = append(ps, f.Names...)
+		}
+		if len(ps) != 1 || ps[0].Obj == nil {
+			return nil
+		}
+		errObjs[ps[0].Obj] = true
+		return callee
+	}
+	var helper *ast.FuncDecl
 	ast.Inspect(hb, func(n ast.Node) bool {
+		if c, ok := n.(*ast.CallExpr); ok && helper == nil {
+			helper = classifier(c)
+		}
+		return true
+	})
+	// results of `v, ok := err.(net.Error)` anywhere in the handler (and in the classification helper)
+	assertVal, assertOK := map[*ast.Object]bool{}, map[*ast.Object]bool{}
+	bodies := []ast.Node{hb}
+	if helper != nil {
+		bodies = append(bodies, helper.Body)
+	}
+	for _, body := range bodies {
+	ast.Inspect(body, func(n ast.Node) bool {
 		if as, ok := n.(*ast.AssignStmt); ok && len(as.Lhs) == 2 && len(as.Rhs) == 1 {
 			if ta, ok := as.Rhs[0].(*ast.TypeAssertExpr); ok && ta.Type != nil && isErr(ta.X) && x.src(ta.Type) == "net.Error" {
 				if a, ok := as.Lhs[0].(*ast.Ident); ok && a.Obj != nil {
@@ -1032,6 +1104,7 @@ func c19ErrorHandler(x *X) {
 		}
 		return true
 	})
+	}
 	status := func(e ast.Expr) (uint64, bool) {
 		e = c19StripParen(e)
 		s := x.src(e)
@@ -1086,44 +1159,58 @@ func c19ErrorHandler(x *X) {
 	var initCode uint64
 	written := false
 	writtenIsStatus := false
-	var walk func(path string, b []ast.Stmt)
-	var walkIf func(path string, s *ast.IfStmt)
-	walkIf = func(path string, s *ast.IfStmt) {
+	// The walk returns whether the statements always leave the function (`return`). After an `if` whose one branch
+	// always returns, the statements that follow run under the other branch's condition; an `if` that only assigns
+	// leaves the path as it is (a later assignment would override an earlier one: such code gets its own rows).
+	// inHelper: the body walked is the classification helper's; its `return <status>` are rows, and the return
+	// that is reached when every test failed is the default.
+	haveDefault := false
+	allNegated := func(path string) bool {
+		if path == "" {
+			return true
+		}
+		for _, seg := range strings.Split(path[1:], "/") {
+			if !strings.HasPrefix(seg, "!") {
+				return false
+			}
+		}
+		return true
+	}
+	var walk func(path string, b []ast.Stmt, inHelper bool) bool
+	var walkIf func(path string, s *ast.IfStmt, inHelper bool) (thenT, elseT bool, thenPath, elsePath string)
+	walkIf = func(path string, s *ast.IfStmt, inHelper bool) (bool, bool, string, string) {
 		cond := c19StripParen(s.Cond)
-		var thenB []ast.Stmt = s.Body.List
-		els := s.Else
 		pos, neg := "", "!"
 		if u, ok := cond.(*ast.UnaryExpr); ok && u.Op == token.NOT {
 			cond = u.X
 			pos, neg = "!", ""
 		}
 		n := condName(cond)
-		walk(path+"/"+pos+n, thenB)
-		switch e := els.(type) {
+		thenPath, elsePath := path+"/"+pos+n, path+"/"+neg+n
+		thenT := walk(thenPath, s.Body.List, inHelper)
+		elseT := false
+		switch e := s.Else.(type) {
 		case *ast.BlockStmt:
-			// `else { if … }` is the same as `else if …`
-			if len(e.List) == 1 {
-				if inner, ok := e.List[0].(*ast.IfStmt); ok && inner.Init == nil {
-					walkIf(path+"/"+neg+n, inner)
-					return
-				}
-			}
-			walk(path+"/"+neg+n, e.List)
+			elseT = walk(elsePath, e.List, inHelper)
 		case *ast.IfStmt:
-			walkIf(path+"/"+neg+n, e)
+			elseT = walk(elsePath, []ast.Stmt{e}, inHelper)
 		}
+		return thenT, elseT, thenPath, elsePath
 	}
-	walk = func(path string, b []ast.Stmt) {
+	walk = func(path string, b []ast.Stmt, inHelper bool) bool {
 		for _, st := range b {
 			switch s := st.(type) {
 			case *ast.BlockStmt:
-				walk(path, s.List)
+				if walk(path, s.List, inHelper) {
+					return true
+				}
 			case *ast.DeclStmt:
 				if gd, ok := s.Decl.(*ast.GenDecl); ok && path == "" && statusObj == nil {
 					for _, sp := range gd.Specs {
 						if vs, ok := sp.(*ast.ValueSpec); ok && len(vs.Names) == 1 && len(vs.Values) == 1 {
 							if v, ok := status(vs.Values[0]); ok {
 								statusObj, initCode = vs.Names[0].Obj, v
+								haveDefault = true
 							}
 						}
 					}
@@ -1134,9 +1221,14 @@ func c19ErrorHandler(x *X) {
 					if !ok {
 						continue
 					}
-					if s.Tok == token.DEFINE && path == "" && statusObj == nil {
+					if s.Tok == token.DEFINE && path == "" && statusObj == nil && !inHelper && helper != nil && classifier(s.Rhs[0]) == helper {
+						// statusCode := helper(err): the helper's returns are the table
+						statusObj = id.Obj
+						walk("", helper.Body.List, true)
+					} else if s.Tok == token.DEFINE && path == "" && statusObj == nil {
 						if v, ok := status(s.Rhs[0]); ok {
 							statusObj, initCode = id.Obj, v
+							haveDefault = true
 						}
 					} else if s.Tok == token.ASSIGN && statusObj != nil && id.Obj == statusObj {
 						if v, ok := status(s.Rhs[0]); ok {
@@ -1146,17 +1238,42 @@ func c19ErrorHandler(x *X) {
 						}
 					}
 				}
+			case *ast.ReturnStmt:
+				if inHelper && len(s.Results) == 1 {
+					if v, ok := status(s.Results[0]); ok {
+						if allNegated(path) && !haveDefault {
+							initCode, haveDefault = v, true
+						} else {
+							rows = append(rows, row{path, v})
+						}
+					} else if id, ok := c19StripParen(s.Results[0]).(*ast.Ident); !ok || statusObj == nil || id.Obj != statusObj {
+						x.fail("ErrorHandler: returned status %s not understood", x.src(s.Results[0]))
+					}
+				}
+				return true
 			case *ast.IfStmt:
-				if path == "" && written {
+				if path == "" && written && !inHelper {
 					continue // after WriteHeader: logging only
 				}
-				walkIf(path, s)
+				thenT, elseT, thenPath, elsePath := walkIf(path, s, inHelper)
+				switch {
+				case thenT && elseT:
+					return true
+				case thenT && s.Else == nil:
+					path = elsePath
+				case elseT && !thenT:
+					path = thenPath
+				}
 			case *ast.ExprStmt:
-				if c, ok := s.X.(*ast.CallExpr); ok && len(c.Args) == 1 && path == "" {
+				if c, ok := s.X.(*ast.CallExpr); ok && len(c.Args) == 1 && path == "" && !inHelper {
 					if sel, ok := c.Fun.(*ast.SelectorExpr); ok && sel.Sel.Name == "WriteHeader" {
 						if id, ok := sel.X.(*ast.Ident); ok && id.Obj == wObj {
 							written = true
 							if a, ok := c19StripParen(c.Args[0]).(*ast.Ident); ok && statusObj != nil && a.Obj == statusObj {
+								writtenIsStatus = true
+							} else if helper != nil && statusObj == nil && classifier(c.Args[0]) == helper {
+								// w.WriteHeader(helper(err))
+								walk("", helper.Body.List, true)
 								writtenIsStatus = true
 							}
 						}
@@ -1164,8 +1281,9 @@ func c19ErrorHandler(x *X) {
 				}
 			}
 		}
+		return false
 	}
-	walk("", hb.List)
+	walk("", hb.List, false)
 	x.defNat("errorHandlerDefault", initCode)
 	var b strings.Builder
 	b.WriteString("def errorHandlerTable : List (String × Nat) := [")
